@@ -51,10 +51,13 @@ type c14Case struct {
 	// Exact: message index -> exact length of the message as handed to the producer (the payload is extended at
 	// run time): lengths on and next to the 8-, 12-, 16- and 17-bit marks
 	Exact map[int]int `json:"exact,omitempty"`
+	// PaceUS > 0: the feeder waits this many microseconds after every message, so that an outage costs a limited
+	// number of messages and later breaks of the plan still find traffic
+	PaceUS int `json:"pace_us,omitempty"`
 }
 
 const c14Rule = "case = raw-socket producer configuration (tcp | udp, retry-max 0..4) + 1..300 messages (1 octet..48 KiB, in a quarter of the tcp cases some extended to exactly 255..131073 octets on and next to the 8-, 12-, 16- and 17-bit marks; JSON-like text rich in %d %s %% %! verbs, quotes, UTF-8 and arbitrary non-newline octets, each tagged with its index) " +
-	"+ fault plan (tcp): none, or 1..3 breaks (after message i the sink closes gracefully | resets the connection, optionally stops listening for a drawn downtime), or a stall plan (the sink stops reading while 30..60 messages of 48 KiB follow, so that a write blocks half-way, then resets), or a slow-sink plan (the sink stops reading for 0.3..5.5 s (thorough: ..31 s) and then goes on, while 1200..2500 messages keep the producer's queue full: the no-fault oracle applies); with a fault plan the producer may have been up and idle for 0.4..5.5 s (thorough: ..31 s) before traffic starts; the real producer.NewProducer(\"rawSocket\").Run() writes to a sink owned by the harness; " +
+	"+ fault plan (tcp): none, or 1..3 breaks (after message i the sink closes gracefully | resets the connection, optionally stops listening for a drawn downtime; with two or more breaks the feeder is paced so that later breaks still find traffic), or an outage plan (2..4 outages on one producer, each costing a drawn 2..140 messages of a paced feeder, delivered traffic in between), or a stall plan (the sink stops reading while 30..60 messages of 48 KiB follow, so that a write blocks half-way, then resets), or a slow-sink plan (the sink stops reading for 0.3..5.5 s (thorough: ..31 s) and then goes on, while 1200..2500 messages keep the producer's queue full: the no-fault oracle applies); with a fault plan the producer may have been up and idle for 0.4..5.5 s (thorough: ..31 s) before traffic starts; the real producer.NewProducer(\"rawSocket\").Run() writes to a sink owned by the harness; " +
 	"oracle without fault = the sink's byte stream is exactly concat(message + newline) (udp: one datagram per message, paced); with faults (every break index is a fault point) = the complete lines received over all connections are " +
 	"byte-identical input messages with strictly increasing indices (no duplicate, no corruption, no reordering), and once the sink is reachable again probe messages handed over one at a time resume delivery within retry-max+4 probes with nothing missing afterwards; " +
 	"non-trivial = a message contains '%' or is >= 4 KiB, or the plan has a break; distinct by hash"
@@ -141,6 +144,30 @@ func genC14(t *rapid.T) c14Case {
 		c.Breaks = []c14Break{{After: rapid.IntRange(1, 3).Draw(t, "stallafter"), Kind: "stall", StallMS: rapid.SampledFrom([]int{80, 150, 300}).Draw(t, "stallms")}}
 		return c
 	}
+	if c.Protocol == "tcp" && rapid.IntRange(0, 7).Draw(t, "outageplan") == 0 {
+		// a history of 2..4 sink outages on one producer, each costing a drawn number of messages (paced feeder:
+		// downtime / pace messages are handed over while the sink is away), with delivered traffic in between
+		c.Msgs = nil
+		c.PaceUS = rapid.SampledFrom([]int{500, 1000, 2000}).Draw(t, "opace")
+		no := rapid.IntRange(2, 4).Draw(t, "noutages")
+		at, need := 0, 0
+		for k := 0; k < no; k++ {
+			// messages expected to be handed over during the downtime
+			lost := rapid.OneOf(rapid.IntRange(2, 15), rapid.IntRange(17, 70), rapid.IntRange(2, 140)).Draw(t, "olost")
+			at += rapid.IntRange(1, 20).Draw(t, "obetween")
+			down := lost * c.PaceUS / 1000
+			if down < 1 {
+				down = 1
+			}
+			c.Breaks = append(c.Breaks, c14Break{After: at, Kind: rapid.SampledFrom([]string{"close", "rst"}).Draw(t, "okind"), DownMS: down})
+			need += 2*lost + 4 // handed over while the sink is away (timing: up to twice the drawn number)
+		}
+		nm := at + need + 30 + rapid.IntRange(0, 60).Draw(t, "otail")
+		for i := 0; i < nm; i++ {
+			c.Msgs = append(c.Msgs, []byte(rapid.SampledFrom(c14Snippets).Draw(t, "osnip")))
+		}
+		return c
+	}
 	if c.Protocol == "tcp" && rapid.IntRange(0, 2).Draw(t, "faulty") > 0 {
 		nb := rapid.IntRange(1, 3).Draw(t, "nbreaks")
 		last := -1
@@ -156,6 +183,9 @@ func genC14(t *rapid.T) c14Case {
 			}
 			b.PauseMS = rapid.SampledFrom([]int{0, 0, 2, 20}).Draw(t, "pausems")
 			c.Breaks = append(c.Breaks, b)
+		}
+		if len(c.Breaks) >= 2 || rapid.Bool().Draw(t, "paced") {
+			c.PaceUS = rapid.SampledFrom([]int{100, 300, 1000, 3000}).Draw(t, "paceus")
 		}
 		ages := []int{0, 0, 0, 0, 0, 0, 0, 0, 0, 0, 400, 1500, 3200, 5500}
 		if os.Getenv("VERIF_TIER") == "thorough" {
@@ -452,6 +482,9 @@ func runC14(c *c14Case) (v verdict, sig string, err error) {
 	}
 	for i, m := range wireMsgs {
 		ch <- append([]byte{}, m...)
+		if c.PaceUS > 0 && c.PaceUS <= 100000 {
+			time.Sleep(time.Duration(c.PaceUS) * time.Microsecond)
+		}
 		if b, ok := brkAt[i]; ok && b.PauseMS > 0 {
 			time.Sleep(time.Duration(b.PauseMS) * time.Millisecond)
 		}
@@ -501,6 +534,8 @@ func runC14(c *c14Case) (v verdict, sig string, err error) {
 	triggered := sink.nextBrk
 	sink.nextBrk = len(sink.breaks)
 	sink.mu.Unlock()
+	v.label(triggered >= 2, "breaks-reached>=2")
+	v.label(triggered >= 3, "breaks-reached>=3")
 	// breaks that have begun (a stall, a downtime) must be over before the probes start
 	for i := 0; i < 400; i++ {
 		sink.mu.Lock()
@@ -560,7 +595,7 @@ func runC14(c *c14Case) (v verdict, sig string, err error) {
 	for i, m := range wireMsgs {
 		idx[string(m)] = i
 	}
-	last := -1
+	last, gaps := -1, 0
 	for n, l := range lines {
 		i, ok := idx[string(l)]
 		if !ok {
@@ -572,8 +607,13 @@ func runC14(c *c14Case) (v verdict, sig string, err error) {
 		if i < last {
 			return v, "reordered", fmt.Errorf("message %d delivered after message %d", i, last)
 		}
+		if i-last-1 >= 2 {
+			gaps++
+			v.label(i-last-1 > 16, "gap>16-messages")
+		}
 		last = i
 	}
+	v.label(gaps >= 2, "gaps-of>=2-messages>=2")
 	delivered := make([]bool, nProbes)
 	for _, l := range lines {
 		if i, ok := idx[string(l)]; ok && i >= base {
